@@ -1,0 +1,47 @@
+//go:build verif
+
+// Contracts for the block allocator's free list (properties C04 and C02).
+// Comment-only file.
+//
+// blkOff(b), blkStart(b): device offset (sectors) and initial write offset
+// (sectors) a block object was created with.
+package local
+
+//@ ghost blkOff(ref) int
+//@ ghost blkStart(ref) int
+
+//@ extern google.golang.org/protobuf/proto.Equal
+//@   modifies nothing
+
+//@ func (*blockDeviceBackedBlockAllocator).newBlockObject
+//@   modifies blkOff, blkStart
+//@   exitghost blkOff(result) := deviceOffsetSectors
+//@   exitghost blkStart(result) := writeOffsetSectors
+//@   ensures result != nil && fresh(result) && blkOff(result) == deviceOffsetSectors && blkStart(result) == writeOffsetSectors
+//@ func (*blockDeviceBackedBlockAllocator).getBlockLocationMessage
+//@   opt wraps
+//@   modifies nothing
+//@   ensures result != nil
+
+// A new block takes the head of the free list: that offset leaves the list, so
+// it cannot be handed out again until Release() puts it back.
+//@ func (*blockDeviceBackedBlockAllocator).NewBlock
+//@   opt contents int64
+//@   requires held(addr(pa.lock)) == 0
+//@   ensures [taken-from-the-free-list] result2 == nil ==> result0 != nil && len(pa.freeOffsets) == old(len(pa.freeOffsets)) - 1
+//@         && blkOff(result0) == old(pa.freeOffsets[0]) && blkStart(result0) == 0
+//@   ensures [rest-of-the-list-kept] result2 == nil ==> (forall k :: 0 <= k && k < len(pa.freeOffsets) ==> pa.freeOffsets[k] == old(pa.freeOffsets[k + 1]))
+//@   ensures [nothing-taken-on-failure] result2 != nil ==> result0 == nil && len(pa.freeOffsets) == old(len(pa.freeOffsets)) && len(pa.freeOffsets) == 0
+
+// Restoring a block after a restart: it leaves the free list, and writing
+// resumes at the first sector boundary at or after the restored write offset,
+// so nothing that was durable is overwritten (C02).
+//@ func (*blockDeviceBackedBlockAllocator).NewBlockAtLocation
+//@   opt contents int64
+//@   requires held(addr(pa.lock)) == 0 && pa.sectorSizeBytes >= 1 && pa.sectorSizeBytes <= 1048576
+//@   requires writeOffsetBytes >= 0 && writeOffsetBytes <= 4611686018427387904
+//@   ensures [leaves-the-free-list] result1 ==> result0 != nil && len(pa.freeOffsets) == old(len(pa.freeOffsets)) - 1
+//@   ensures [free-list-kept-otherwise] !result1 ==> result0 == nil && len(pa.freeOffsets) == old(len(pa.freeOffsets))
+//@   ensures [resumes-at-or-after-durable-data] result1 ==> blkStart(result0) * pa.sectorSizeBytes >= writeOffsetBytes
+//@         && (blkStart(result0) - 1) * pa.sectorSizeBytes < writeOffsetBytes
+//@   loop 0 invariant -1 <= rangeindex && unchanged(len(pa.freeOffsets)) && unchanged(pa.sectorSizeBytes) && held(addr(pa.lock)) == 2
